@@ -9,6 +9,7 @@ import Driver.Util
 import FV.Model.Adapter
 import FV.Model.Monitor
 import FV.Model.Framed
+import FV.Model.NatsClient
 
 namespace Driver
 open FV FV.Adapter
@@ -345,6 +346,29 @@ def stepAdapter (op : String) (args : List String) : Option String :=
     let m : Nat → Nat := fun a => if a = 6 then 4 else a
     let adp := hist.map fun b => UInt8.ofNat (m (b.toNat % 16) + 16 * (b.toNat / 16))
     pure (Adp.runHistory adp pol withMon)
+  | "nct", [h] => do
+    -- NATS client transport: sequential history, one byte per action (mod 7)
+    let hist ← unhex h
+    if hist.length > 64 then none else
+    let acts : List NatsClient.Act := hist.map fun b =>
+      match b.toNat % 7 with
+      | 0 => .open | 1 => .close | 2 => .isOpen | 3 => .request | 4 => .connClose | 5 => .brokerDown | _ => .brokerUp
+    let names := "OCIQKDU".toList
+    let retS : NatsClient.Ret → String := fun r => match r with
+      | .ok => "ok" | .alreadyOpen => "already" | .notOpen => "notopen" | .other => "other"
+      | .bool b => if b then "true" else "false" | .env => "env"
+    let (s, outs) := acts.foldl (fun (acc : NatsClient.Sys × List String) a =>
+      let idx := match a with | .open => 0 | .close => 1 | .isOpen => 2 | .request => 3 | .connClose => 4 | .brokerDown => 5 | .brokerUp => 6
+      let nm := String.singleton (names.getD idx '?')
+      -- the harness does not shut down a broker that is down / restart one that is up
+      if (a = .brokerDown && !acc.1.broker) || (a = .brokerUp && acc.1.broker) then (acc.1, acc.2 ++ [nm ++ "=skip"])
+      else if acc.1.panicked then (acc.1, acc.2 ++ [nm ++ "=panic:closedChan"])
+      else
+        let r := NatsClient.step acc.1 a
+        if r.1.panicked then (r.1, acc.2 ++ [nm ++ "=panic:closedChan"]) else (r.1, acc.2 ++ [nm ++ "=" ++ retS r.2])) (NatsClient.init, [])
+    let incs := if s.incs.isEmpty then "." else "/".intercalate (s.incs.map fun i =>
+      if i.sent = 0 then (if i.chanClosed then "closed-empty" else "-") else "&".intercalate (List.replicate i.sent "nil"))
+    pure (";".intercalate outs ++ "|open=" ++ (if s.isOpen then "true" else "false") ++ " inc=" ++ incs)
   | "cut", [x, k, mode] => do
     -- inbound stream x cut after k bytes, then EOF (e) or a read error (r)
     let bs ← unhex x
